@@ -30,6 +30,20 @@ def build():
         if os.path.exists(lock):
             shutil.copy(lock, os.path.join(work, 'Cargo.lock'))
         env = dict(os.environ, CARGO_NET_OFFLINE='true', CARGO_TARGET_DIR=TARGET if REPO == '/repo' else TARGET + '-alt')
+        # the C sources of feel-number are compiled by its build script (cc crate), which emits rerun-if-env-changed lines
+        # and therefore is NOT re-run when a .c/.h file changes: detect that here and drop the stale objects from OUR target dir
+        import hashlib, glob
+        h = hashlib.sha256()
+        for f in sorted(glob.glob(os.path.join(REPO, 'feel-number', 'decnumber', '*.[ch]')) + [os.path.join(REPO, 'feel-number', 'build.rs')]):
+            with open(f, 'rb') as fh:
+                h.update(f.encode() + b'\0' + fh.read())
+        stamp = os.path.join(env['CARGO_TARGET_DIR'], '.decnumber-sha256')
+        old = open(stamp).read() if os.path.exists(stamp) else None
+        if old is not None and old != h.hexdigest():
+            subprocess.run(['cargo', 'clean', '--offline', '-p', 'dmntk-feel-number'], cwd=work, env=env, capture_output=True, text=True, timeout=600)
+        os.makedirs(env['CARGO_TARGET_DIR'], exist_ok=True)
+        with open(stamp, 'w') as fh:
+            fh.write(h.hexdigest())
         p = subprocess.run(['cargo', 'build', '--offline', '--quiet'], cwd=work, env=env, capture_output=True, text=True, timeout=1800)
         exe = os.path.join(env['CARGO_TARGET_DIR'], 'debug', 'verif-replay')
         res = (p.returncode == 0 and os.path.exists(exe), exe if p.returncode == 0 else p.stderr[-2000:])
